@@ -254,6 +254,20 @@ func TestSafeAttack(t *testing.T) {
 	})
 }
 
+// TestSafeConstructs runs the safe-mode oracle on the construct-adjacency documents.
+func TestSafeConstructs(t *testing.T) {
+	cfgs := []gen.Config{{XHTML: true}, {GFM: true, DefList: true, Footnote: true, Typo: true, CJK: 1, AutoID: true, Attr: true}}
+	n := gen.EnumConstructDocs(kit.Thorough(), func(idx int, doc []byte) {
+		if !kit.Mine(idx) {
+			return
+		}
+		for _, cfg := range cfgs {
+			run(t, cfg, doc, "exhaustive-constructs")
+		}
+	})
+	kit.R.Note("exhaustive_constructs", n)
+}
+
 func FuzzSafe(f *testing.F) {
 	for _, e := range gen.Spec() {
 		f.Add(uint16(0x30), []byte(e.Markdown))
